@@ -210,12 +210,26 @@ func ExecRound(dir string, prevRoot []byte, rd Round) (root []byte, dead []strin
 		return root, dead, err
 	}
 	bc.Commit()
+	if rd.Version%3 != 0 {
+		// the round is final: the block state is moved onto the persistent store (what the chain does with a finalized
+		// block's state); it still reads the same
+		block.SetNodeDB(pndb)
+		if ierr := util.CloneMPT(block).Iterate(context.Background(), func(context.Context, util.Path, util.Key, util.Node) error { return nil }, util.NodeTypeValueNode); ierr != nil {
+			return root, dead, fmt.Errorf("the block state cannot be iterated after it was moved onto the persistent store: %v", ierr)
+		}
+	}
 	return root, dead, nil
 }
 
-// Prune runs PruneBelowVersion on a freshly opened store.
+// Prune runs PruneBelowVersion on a freshly opened store. A prune below an even version is called the way the chain's pruning
+// worker calls it: with a statistics object in the context whose stage the caller has set to "deleting".
 func Prune(dir string, v int64) error {
-	return mptkit.Reopen(dir).PruneBelowVersion(context.Background(), v)
+	ctx := context.Background()
+	if v%2 == 0 {
+		ctx = util.WithPruneStats(ctx)
+		util.GetPruneStats(ctx).Stage = util.PruneStateDelete
+	}
+	return mptkit.Reopen(dir).PruneBelowVersion(ctx, v)
 }
 
 // CheckReadable opens the store alone (fresh PNodeDB object, fresh trie and cache) at a
